@@ -234,6 +234,10 @@ func (x *Exec) comp(st *State, name, sort string) *Term {
 }
 
 func (x *Exec) alloc(st *State) *Term {
+	if st.Spec {
+		// only occurs in typing side-facts, which are dropped for spec bodies
+		return Sym("hp.$alloc", SInt)
+	}
 	a, ok := st.H["$alloc"]
 	if !ok {
 		a = x.vc.decl("H0.$alloc", SInt)
